@@ -194,6 +194,11 @@ def generator_rules(cfg, R):
     f = tr.fn('hash_name')
     R.instance('G1', 'tzdb.transformer.hash_name', f.loc)
     samples = ['', 'a', 'UTC', 'Etc/GMT+12', 'America/Los_Angeles', 'Asia/Ho_Chi_Minh', 'America/Argentina/ComodRivadavia', 'x' * 40, '~' * 64, 'Tag/Zeta', 'bA', 'ab']
+    # names whose djb2 is exactly 0 (found by search; the id 0 is a value like any other)
+    zero_names = ['Test/Zdfxiru', 'Asia/Njfahczj', 'Pacific/Kpqtkjoy']
+    if any(djb2(s) != 0 for s in zero_names):
+        raise AnalysisError('internal: a sample name that should hash to 0 does not')
+    samples += zero_names
     for s in samples:
         st, v = guarded(f, lambda: ev.call(tr, 'hash_name', [s]))
         if st != 'ok' or v != djb2(s):
@@ -388,6 +393,7 @@ SELFTEST = [
          replace='hash = (31 * hash + ord(c)) % U32_MOD', rule='G1'),
     dict(id='hash-shift-spelling-silent', file='tools/tzdb/transformer.py', find='hash = (33 * hash + ord(c)) % U32_MOD',
          replace='hash = (((hash << 5) + hash) + ord(c)) & 0xFFFFFFFF', expect='silent'),
+    dict(id='hash-never-zero', file='tools/tzdb/transformer.py', find='    return hash\n', replace='    return hash or 1\n', rule='G1'),
     dict(id='id-from-other-variable', file='tools/zonedb/argenerator.py', find='zoneId=hash_name(zone_name),\n            )',
          replace='zoneId=hash_name(normalize_name(zone_name)),\n            )', rule='G2'),
     dict(id='registry-unsorted', file='tools/zonedb/argenerator.py',
